@@ -37,6 +37,11 @@ let handle (line : string) : string =
       string_of_bytes (model_jpstr (bytes_of_hex hex) (List.hd (bytes_of_hex delim)))
   | ["senstr"; html; hex] ->
       string_of_bytes (hexs (sen_string (html = "1") (bytes_of_hex hex)))
+  | ["senarr"; html; hexes] ->
+      let xs = List.map bytes_of_hex (List.tl (String.split_on_char ',' hexes)) in
+      string_of_bytes (hexs (sen_array (html = "1") xs))
+  | ["senreadarr"; hex] ->
+      string_of_bytes (show_read_array (bytes_of_hex hex))
   | ["senread"; hex] ->
       string_of_bytes (show_read (bytes_of_hex hex))
   | [("jppath" | "jppathb" | "jppath@" | "jppath-") as cmd; frags] ->
